@@ -2089,6 +2089,7 @@ func (l *Loader) loadByContext(ctx context.Context, source DataSource, fetchItem
 		return l.loadByContextDirect(ctx, source, headers, input, res)
 	}
 
+retry:
 	item, shared := l.singleFlight.GetOrCreateItem(fetchItem, input, extraKey)
 	if res.singleFlightStats != nil {
 		res.singleFlightStats.used = true
@@ -2104,6 +2105,10 @@ func (l *Loader) loadByContext(ctx context.Context, source DataSource, fetchItem
 		}
 
 		if item.err != nil {
+			if item.leaderCanceled && ctx.Err() == nil {
+				// the leader's client went away; do not inherit its cancellation: start over
+				goto retry
+			}
 			return item.err
 		}
 
@@ -2135,6 +2140,7 @@ func (l *Loader) loadByContext(ctx context.Context, source DataSource, fetchItem
 	err := l.loadByContextDirect(ctx, source, headers, input, res)
 	verifhook.Yield("subgraph.leader.loaded", item.SFKey)
 	if err != nil {
+		item.leaderCanceled = ctx.Err() != nil
 		item.err = err
 		return err
 	}
